@@ -262,6 +262,16 @@ def unit_fallbacks(complex_=False):
             c.check("rmm_shape", rmm.shape == (b, q, r) and rmm.vaxes == (1,))
             fm = A.fullmatrix()
             c.check("fullmatrix_shape", fm.shape == (b, p, q))
+        # differentiability of the fall-backs: under grad mode the products stay connected to the operator's parameters,
+        # whether or not the vector itself requires grad (the adjoint trick records its inner pull-back iff grad mode)
+        if kind == "mv_only":
+            for gm in (True, False):
+                n0 = len(c.calls)
+                with (st.enable_grad() if gm else st.no_grad()):
+                    A.rmv(xp)
+                ag = [kw for nme, kw in c.calls[n0:] if nme == "autograd.grad"]
+                c.check("rmv(adjoint_trick).inner_pull_back_is_recorded_iff_grad_mode[%s]" % ("grad" if gm else "no_grad"),
+                        len(ag) >= 1 and all(kw["create_graph"] == gm for kw in ag), detail=str([kw["create_graph"] for kw in ag]))
         for prod, bad in (("mv", xp), ("rmv", xq), ("mm", Xp), ("rmm", Xq)):
             if c.branch(p.e != q.e):
                 try:
